@@ -11,7 +11,22 @@ from checks import _ll
 PROPERTY = "C10"
 LEAN_MODULES = ["TapkeeVerif.Props.C10"]
 LEAN_EXES = ["model_c10"]
-REQUIRED_THEOREMS = []
+REQUIRED_THEOREMS = [
+    "TapkeeVerif.C10.lhs_upper_eq",
+    "TapkeeVerif.C10.lhs_lower_eq",
+    "TapkeeVerif.C10.npe_returns",
+    "TapkeeVerif.C10.lltsa_returns",
+    "TapkeeVerif.C10.lpp_returns",
+    "TapkeeVerif.C10.solver_sees_XMXt",
+    "TapkeeVerif.C10.solver_sees_XMXt_lltsa",
+    "TapkeeVerif.C10.solver_sees_XMXt_lpp",
+    "TapkeeVerif.C10.lin_solution",
+    "TapkeeVerif.C10.rotation_equivariance",
+    "TapkeeVerif.C10.fullForm_rotate",
+    "TapkeeVerif.C10.project_rotate",
+    "TapkeeVerif.C10.prefix_solver_sees_XMXt_refuted",      # regression witness of F-LIN-TRI (pre-fix routines)
+    "TapkeeVerif.C10.prefix_lltsa_lhs_upper_eq",            # regression witness of F-LLTSA-CENTRE
+]
 EXE = "model_c10"
 
 
